@@ -141,7 +141,7 @@ def a_out(ret):
 # ------------------------------------------------------------------ building the dispatcher
 def build(cfg, ev):
     is_async = cfg['kind'] in ('async', 'asyncseq')      # asyncseq: AsyncDispatcher(concurrent_batch=False)
-    coro = cfg['flavour'] == 'coro'
+    coro = cfg['flavour'] in ('coro', 'wrapcoro')
     perr = cfg['perr']
     exc_t = EXC[cfg['exc']]
 
@@ -188,6 +188,15 @@ def build(cfg, ev):
 
         async def exc_m(a=None, b=None):
             return await run_coro('m_exc', {'a': a, 'b': b})
+        if cfg['flavour'] == 'wrapcoro':
+            import functools
+
+            def passthrough(f):
+                @functools.wraps(f)
+                def wrapper(*args, **kwargs):       # an ordinary function that returns the coroutine
+                    return f(*args, **kwargs)
+                return wrapper
+            ok, one, perr_m, exc_m = passthrough(ok), passthrough(one), passthrough(perr_m), passthrough(exc_m)
     else:
         def ok(a=None, b=None):
             return body('m_ok', {'a': a, 'b': b})
